@@ -1,4 +1,4 @@
-import Zrnt.Beacon.Spec.Helpers
+import Zrnt.Beacon.Spec.Pure
 /-!
 # Specification layer `S`: epoch processing, phase0 … deneb
 
@@ -10,20 +10,10 @@ is marked `[Modified in …]` as in the spec text.
 namespace Zrnt.Beacon.Spec
 open Zrnt.Beacon
 
-/-! ## Altair constants -/
-def TIMELY_SOURCE_FLAG_INDEX : Nat := 0
-def TIMELY_TARGET_FLAG_INDEX : Nat := 1
-def TIMELY_HEAD_FLAG_INDEX : Nat := 2
-def TIMELY_SOURCE_WEIGHT : Nat := 14
-def TIMELY_TARGET_WEIGHT : Nat := 26
-def TIMELY_HEAD_WEIGHT : Nat := 14
-def SYNC_REWARD_WEIGHT : Nat := 2
-def PROPOSER_WEIGHT : Nat := 8
-def WEIGHT_DENOMINATOR : Nat := 64
-def PARTICIPATION_FLAG_WEIGHTS : List Nat := [TIMELY_SOURCE_WEIGHT, TIMELY_TARGET_WEIGHT, TIMELY_HEAD_WEIGHT]
-
-def has_flag (flags flag_index : Nat) : Bool := (flags / 2 ^ flag_index) % 2 = 1
-def add_flag (flags flag_index : Nat) : Nat := if has_flag flags flag_index then flags else flags + 2 ^ flag_index
+/-- The monadic (checked) functions below compare what they computed with the theorem-facing pure function of
+`Pure.lean`; a disagreement is reported as `Err.oracle`, which the correspondence run shows as a mismatch. -/
+def crossCheck {α : Type} [DecidableEq α] (checked pureCore : α) (what : String) : SM Unit :=
+  if checked = pureCore then pure () else throw (.oracle s!"pure core disagrees: {what}")
 
 /-! ## Per-fork constants -/
 
@@ -180,6 +170,12 @@ def justification_inputs (cfg : Config) (s : State) : SM (Option FFGInputs) := d
     let current_indices ← get_unslashed_participating_indices cfg s TIMELY_TARGET_FLAG_INDEX (get_current_epoch cfg s)
     let previous_target_balance ← get_total_balance cfg s previous_indices
     let current_target_balance ← get_total_balance cfg s current_indices
+    crossCheck (total_active_balance, previous_target_balance, current_target_balance)
+      (total_active_balance_of cfg s.validators (get_current_epoch cfg s),
+       (target_balances_altair_pure cfg s.validators s.previous_epoch_participation s.current_epoch_participation
+         (get_previous_epoch cfg s) (get_current_epoch cfg s)).1,
+       (target_balances_altair_pure cfg s.validators s.previous_epoch_participation s.current_epoch_participation
+         (get_previous_epoch cfg s) (get_current_epoch cfg s)).2) "altair target balances"
     some <$> weigh_inputs cfg s total_active_balance previous_target_balance current_target_balance
 
 /-- `process_justification_and_finalization` [Modified in Altair] -/
@@ -219,10 +215,6 @@ def get_base_reward_phase0 (cfg : Config) (s : State) (total_balance : Nat) (ind
 def get_proposer_reward (cfg : Config) (s : State) (total_balance attesting_index : Nat) : SM Nat := do
   if cfg.PROPOSER_REWARD_QUOTIENT = 0 then invalid "division by zero"
   pure ((← get_base_reward_phase0 cfg s total_balance attesting_index) / cfg.PROPOSER_REWARD_QUOTIENT)
-
-abbrev Deltas := List Nat × List Nat
-
-def zeros (n : Nat) : List Nat := List.replicate n 0
 
 def addAt (l : List Nat) (i v : Nat) (what : String) : SM (List Nat) := do
   let x ← idx l i what
@@ -383,7 +375,11 @@ def process_rewards_and_penalties (cfg : Config) (s : State) : SM State := do
   else
     let flag_deltas ← (List.range PARTICIPATION_FLAG_WEIGHTS.length).mapM (get_flag_index_deltas cfg s)
     let deltas := flag_deltas ++ [← get_inactivity_penalty_deltas cfg s]
-    deltas.foldlM apply_deltas s
+    let s' ← deltas.foldlM apply_deltas s
+    crossCheck s'.balances (process_rewards_and_penalties_altair_pure cfg s.validators s.previous_epoch_participation
+      s.inactivity_scores s.balances (get_previous_epoch cfg s) (get_current_epoch cfg s)
+      (inactivity_penalty_quotient cfg s.fork) (← is_in_inactivity_leak cfg s)) "altair rewards and penalties"
+    pure s'
 
 /-- altair `process_inactivity_updates` -/
 def process_inactivity_updates (cfg : Config) (s : State) : SM State := do
@@ -403,6 +399,8 @@ def process_inactivity_updates (cfg : Config) (s : State) : SM State := do
     if !leak then
       score := score - min cfg.INACTIVITY_SCORE_RECOVERY_RATE score
     scores := scores.set index score
+  crossCheck scores (process_inactivity_updates_pure cfg s.validators s.previous_epoch_participation s.inactivity_scores
+    (get_previous_epoch cfg s) leak) "inactivity scores"
   pure { s with inactivity_scores := scores }
 
 /-! ## Registry updates -/
@@ -500,12 +498,9 @@ def process_slashings (cfg : Config) (s : State) : SM State := do
 /-! ## Final updates -/
 
 def process_eth1_data_reset (cfg : Config) (s : State) : SM State := do
-  let next_epoch := get_current_epoch cfg s + 1
   if cfg.EPOCHS_PER_ETH1_VOTING_PERIOD = 0 then invalid "division by zero"
   -- Reset eth1 data votes
-  if next_epoch % cfg.EPOCHS_PER_ETH1_VOTING_PERIOD = 0 then
-    pure { s with eth1_data_votes := [] }
-  else pure s
+  pure { s with eth1_data_votes := process_eth1_data_reset_pure cfg (get_current_epoch cfg s) s.eth1_data_votes }
 
 /-- the new effective balance of one validator (hysteresis) -/
 def effective_balance_update (cfg : Config) (balance effective_balance : Nat) : Nat :=
@@ -533,47 +528,46 @@ def process_effective_balance_updates (cfg : Config) (s : State) : SM State := d
 def process_slashings_reset (cfg : Config) (s : State) : SM State := do
   let next_epoch := get_current_epoch cfg s + 1
   if cfg.EPOCHS_PER_SLASHINGS_VECTOR = 0 then invalid "division by zero"
+  let _ ← idx s.slashings (next_epoch % cfg.EPOCHS_PER_SLASHINGS_VECTOR) "slashings"
   -- Reset slashings
-  pure { s with slashings := ← setIdx s.slashings (next_epoch % cfg.EPOCHS_PER_SLASHINGS_VECTOR) 0 "slashings" }
+  pure { s with slashings := process_slashings_reset_pure cfg (get_current_epoch cfg s) s.slashings }
 
 def process_randao_mixes_reset (cfg : Config) (s : State) : SM State := do
   let current_epoch := get_current_epoch cfg s
   let next_epoch := current_epoch + 1
   -- Set randao mix
-  let mix ← get_randao_mix cfg s current_epoch
-  pure { s with randao_mixes := ← setIdx s.randao_mixes (next_epoch % cfg.EPOCHS_PER_HISTORICAL_VECTOR) mix "randao_mixes" }
+  let _ ← get_randao_mix cfg s current_epoch
+  let _ ← idx s.randao_mixes (next_epoch % cfg.EPOCHS_PER_HISTORICAL_VECTOR) "randao_mixes"
+  pure { s with randao_mixes := process_randao_mixes_reset_pure cfg current_epoch s.randao_mixes }
 
 /-- phase0 … bellatrix -/
 def process_historical_roots_update (cfg : Config) (s : State) : SM State := do
   -- Set historical root accumulator
-  let next_epoch := get_current_epoch cfg s + 1
   if cfg.SLOTS_PER_EPOCH = 0 || cfg.SLOTS_PER_HISTORICAL_ROOT / cfg.SLOTS_PER_EPOCH = 0 then invalid "division by zero"
-  if next_epoch % (cfg.SLOTS_PER_HISTORICAL_ROOT / cfg.SLOTS_PER_EPOCH) = 0 then
+  if historical_batch_due cfg (get_current_epoch cfg s) then
     require (s.historical_roots.length < cfg.HISTORICAL_ROOTS_LIMIT) "historical_roots limit"
-    pure { s with historical_roots := s.historical_roots ++ [hash_tree_root_historical_batch s.block_roots s.state_roots] }
-  else pure s
+  pure { s with historical_roots :=
+    process_historical_roots_update_pure cfg (get_current_epoch cfg s) s.block_roots s.state_roots s.historical_roots }
 
 /-- capella+ -/
 def process_historical_summaries_update (cfg : Config) (s : State) : SM State := do
   -- Set historical block root accumulator.
-  let next_epoch := get_current_epoch cfg s + 1
   if cfg.SLOTS_PER_EPOCH = 0 || cfg.SLOTS_PER_HISTORICAL_ROOT / cfg.SLOTS_PER_EPOCH = 0 then invalid "division by zero"
-  if next_epoch % (cfg.SLOTS_PER_HISTORICAL_ROOT / cfg.SLOTS_PER_EPOCH) = 0 then
+  if historical_batch_due cfg (get_current_epoch cfg s) then
     require (s.historical_summaries.length < cfg.HISTORICAL_ROOTS_LIMIT) "historical_summaries limit"
-    let historical_summary : HistoricalSummary :=
-      ⟨hash_tree_root_roots_vector s.block_roots, hash_tree_root_roots_vector s.state_roots⟩
-    pure { s with historical_summaries := s.historical_summaries ++ [historical_summary] }
-  else pure s
+  pure { s with historical_summaries :=
+    process_historical_summaries_update_pure cfg (get_current_epoch cfg s) s.block_roots s.state_roots s.historical_summaries }
 
 /-- phase0 -/
 def process_participation_record_updates (s : State) : SM State :=
   -- Rotate current/previous epoch attestations
-  pure { s with previous_epoch_attestations := s.current_epoch_attestations, current_epoch_attestations := [] }
+  let r := process_participation_record_updates_pure s.current_epoch_attestations
+  pure { s with previous_epoch_attestations := r.1, current_epoch_attestations := r.2 }
 
 /-- altair+ -/
 def process_participation_flag_updates (s : State) : SM State :=
-  pure { s with previous_epoch_participation := s.current_epoch_participation,
-                current_epoch_participation := List.replicate s.validators.length 0 }
+  let r := process_participation_flag_updates_pure s.validators.length s.current_epoch_participation
+  pure { s with previous_epoch_participation := r.1, current_epoch_participation := r.2 }
 
 /-! ## Sync committees (altair+) -/
 
